@@ -42,7 +42,7 @@ Definition errkind_eqb (a b : errkind) : bool :=
   match a, b with
   | EUntermString, EUntermString | EUntermML, EUntermML | EInvalidML, EInvalidML
   | EInvalidMLComment, EInvalidMLComment | EMalformedNumber, EMalformedNumber
-  | EInvalidTilde, EInvalidTilde | EInvalidToken, EInvalidToken => true
+  | EInvalidTilde, EInvalidTilde | EInvalidToken, EInvalidToken | EEscapeTooLarge, EEscapeTooLarge => true
   | _, _ => false
   end.
 
